@@ -107,6 +107,7 @@ type arg struct {
 	Name string // "" = positional
 	Val  int64
 	Nil  bool // the argument is the literal nil (or an expression evaluating to nil)
+	Quote bool // the name is written back-quoted (a must for names spelled like reserved words)
 }
 
 func (a arg) String() string {
@@ -116,6 +117,9 @@ func (a arg) String() string {
 	}
 	if a.Name == "" {
 		return v
+	}
+	if a.Quote {
+		return fmt.Sprintf("`%s`=%s", a.Name, v)
 	}
 	return fmt.Sprintf("%s=%s", a.Name, v)
 }
@@ -1173,7 +1177,9 @@ func TestSharedDeclarations(t *testing.T) {
 // TestParameterNames: names beyond ASCII: a letter or underscore of any script followed by letters, digits and
 // underscores is a name; anything else is not. A valid name binds by name.
 func TestParameterNames(t *testing.T) {
-	names := []string{"größe", "éa", "é", "tamaño", "a名前", "名前", "x_é", "n٣", "_x", "_", "_1", "Ωmega", "a\u0301b", "a˵", "a͵", "ab֪", "x⪪", "٣a", "a-b", "a b", "a.b", "1a", "é1", "a\u200bb", "\ufeffa", "a\U0001F600", "\U00010400a", "a\U00010400", "a\xffb", "\xffa"}
+	names := []string{"größe", "éa", "é", "tamaño", "a名前", "名前", "x_é", "n٣", "_x", "_", "_1", "Ωmega", "a\u0301b", "a˵", "a͵", "ab֪", "x⪪", "٣a", "a-b", "a b", "a.b", "1a", "é1", "a\u200bb", "\ufeffa", "a\U0001F600", "\U00010400a", "a\U00010400", "a\xffb", "\xffa",
+		// names spelled like the reserved words of the language, in any letter case
+		"map", "in", "if", "nil", "int", "true", "inf", "nan", "for", "list", "str", "Map", "IF", "NULL", "Break", "elif", "while", "return", "identifier", "float", "bool", "continue", "else", "null", "false"}
 	n := 0
 	for _, nm := range names {
 		for _, l := range [][]pdef{{{req, nm}}, {{req, "a"}, {opt, nm}}, {{req, nm}, {req, "b"}}, {{vari, nm}}} {
@@ -1182,7 +1188,7 @@ func TestParameterNames(t *testing.T) {
 				continue
 			}
 			n++
-			if !utf8.ValidString(nm) || gen.IsReserved(nm) || !gen.PlainIdent(nm) {
+			if !utf8.ValidString(nm) || (!gen.PlainIdent(nm) && !gen.IsReserved(nm)) {
 				continue // cannot be written as a named argument
 			}
 			var call []arg
@@ -1190,8 +1196,15 @@ func TestParameterNames(t *testing.T) {
 				if p.K == vari {
 					call = append(call, arg{Val: int64(10 + i)})
 				} else {
-					call = append(call, arg{Name: p.Name, Val: int64(10 + i)})
+					// a name spelled like a reserved word is written back-quoted; it names the parameter all the same
+					call = append(call, arg{Name: p.Name, Val: int64(10 + i), Quote: gen.IsReserved(p.Name)})
 				}
+			}
+			if gen.IsReserved(nm) {
+				evid.Label("names/reserved-word-back-quoted")
+				// the same name twice, and next to a name that is not declared
+				checkCall(t, "names", l, append(append([]arg{}, call...), arg{Name: nm, Val: 99, Quote: true}))
+				checkCall(t, "names", l, []arg{{Name: nm + "x", Val: 1}})
 			}
 			checkCall(t, "names", l, call)
 			if len(l) == 2 {
@@ -1201,6 +1214,87 @@ func TestParameterNames(t *testing.T) {
 		}
 	}
 	evid.Exhaustive("parameter name over scripts and character categories x position in the list; bound by name", n)
+}
+
+// TestMultiValueArguments: an argument expression that yields several values (a host function that returns two or
+// three) is not "the argument given for" any parameter: the call fails - at load or when the parameter is read - whether
+// the argument is positional, named or part of the variadic tail, and wherever it stands. It is never cut down to its
+// first value. A host function that returns exactly one value through the same mechanism binds normally.
+func TestMultiValueArguments(t *testing.T) {
+	ret := func(name string, vals ...int64) *runtimev2.Fn {
+		return &runtimev2.Fn{
+			CallCheck: func(ctx *runtimev2.Task, e *ast.CallExpr) *errchain.PlError { return runtimev2.CheckPassParam(ctx, e, nil) },
+			Call: func(ctx *runtimev2.Task, e *ast.CallExpr) *errchain.PlError {
+				var out []runtimev2.V
+				for _, v := range vals {
+					out = append(out, runtimev2.V{V: v, T: ast.Int})
+				}
+				ctx.Regs.ReturnAppend(out...)
+				return nil
+			},
+			Desc: runtimev2.FnDesc{Name: name},
+		}
+	}
+	lists := [][]pdef{{{req, "a"}}, {{req, "a"}, {req, "b"}}, {{req, "a"}, {opt, "b"}}, {{opt, "a"}, {opt, "b"}}, {{vari, "r"}}, {{req, "a"}, {vari, "r"}}, {{req, "a"}, {req, "b"}, {opt, "c"}}}
+	n := 0
+	for _, l := range lists {
+		params := mkParams(l)
+		for _, multi := range []string{"two()", "three()", "one()"} {
+			var calls []string
+			switch {
+			case len(l) == 1 && l[0].K == vari:
+				calls = []string{"f(%s)", "f(1, %s)", "f(%s, 4)", "f(1, %s, 4)", "f(1, 2, 3, %s)"}
+			case l[len(l)-1].K == vari:
+				calls = []string{"f(%s)", "f(1, %s)", "f(%s, 2)", "f(1, 2, %s, 4)"}
+			case len(l) == 1:
+				calls = []string{"f(%s)", "f(a = %s)"}
+			case len(l) == 2:
+				calls = []string{"f(%s, 2)", "f(1, %s)", "f(a = %s, b = 2)", "f(b = %s, a = 1)", "f(1, b = %s)"}
+			default:
+				calls = []string{"f(%s, 2, 3)", "f(1, 2, %s)", "f(1, 2, c = %s)", "f(1, b = %s)", "f(1, %s)"}
+			}
+			for _, ct := range calls {
+				src := "x = 7\n" + fmt.Sprintf(ct, multi)
+				var rec []string
+				fn := &runtimev2.Fn{
+					CallCheck: func(ctx *runtimev2.Task, e *ast.CallExpr) *errchain.PlError { return runtimev2.CheckPassParam(ctx, e, params) },
+					Call: func(ctx *runtimev2.Task, e *ast.CallExpr) *errchain.PlError {
+						for i := range params {
+							v, err := runtimev2.GetParam(ctx, e, params, i)
+							if err != nil {
+								return err
+							}
+							rec = append(rec, probe.Render(v))
+						}
+						return nil
+					},
+					Desc: runtimev2.FnDesc{Name: "f", Params: params},
+				}
+				rp := replay{Sig: sigText(l), Call: src, Src: src}
+				sc, lerr, cr := impl.LoadV2("c19.p", src, map[string]*runtimev2.Fn{"f": fn, "two": ret("two", 10, 20), "three": ret("three", 10, 20, 30), "one": ret("one", 10)})
+				if cr != nil {
+					rk.Fail(t, "multivalue", rp, "loading %q against %s panicked: %s", src, rp.Sig, cr.Value)
+				}
+				var rerr *errchain.PlError
+				if lerr == nil {
+					rerr, cr = impl.RunV2(sc, nil)
+					if cr != nil {
+						rk.Fail(t, "multivalue", rp, "running %q against %s panicked: %s", src, rp.Sig, cr.Value)
+					}
+				}
+				if multi == "one()" {
+					if lerr != nil || rerr != nil || !strings.Contains(strings.Join(rec, " "), "i:10") {
+						rk.Fail(t, "multivalue", rp, "%q against %s: a host function returning one value is an ordinary argument, got load error %v, run error %v, received %v", src, rp.Sig, lerr, rerr, rec)
+					}
+				} else if lerr == nil && rerr == nil {
+					rk.Fail(t, "multivalue", rp, "%q against %s: an argument that yields several values was bound (received %v) instead of failing the call", src, rp.Sig, rec)
+				}
+				evid.Case("multivalue:"+rp.Sig+" <- "+src, true, "bind/multi-value-argument")
+				n++
+			}
+		}
+	}
+	evid.Exhaustive("parameter list x argument position x host function returning 1, 2 or 3 values", n)
 }
 
 // TestCollectionDefaults: an omitted optional parameter takes its declared default - the very value the declaration
@@ -1601,6 +1695,9 @@ func parseCall(s string) ([]arg, bool) {
 		a := arg{}
 		if i := strings.Index(p, "="); i >= 0 {
 			a.Name = p[:i]
+			if len(a.Name) >= 2 && a.Name[0] == '`' {
+				a.Name, a.Quote = a.Name[1:len(a.Name)-1], true
+			}
 			p = p[i+1:]
 		}
 		if p == "nil" {
